@@ -230,6 +230,64 @@ class NumArr:
         self.a, self.dims = a, dims
 
 
+def quadrature_histories(repo, sfi):
+    """Two-call histories of the rule selection in ONE interpreter (module-level tables and lru_cache stores persist): every
+    (kind, height/radius) after every other one; the second rule must be the one a fresh interpreter hands out.
+    -> (problems per fq, number of histories)"""
+    import numpy as np
+    # (three of the requests need an axial rule of the same length, 11 points, from two families: a table keyed by the length
+    # alone hands one family's rule to the other)
+    configs = [('cheap', F(11, 5)), ('medium', F(11, 7)), ('expensive', F(1)), ('cheap', F(1, 10)), ('medium', F(4)), ('expensive', F(4))]
+
+    def request(wi, wm, kind, ratio):
+        cyl = witness_cylinder(wi, wm, repo, radius=F(1), height=ratio)
+        k_, quad = call(wi, sfi, [kind], bound=cyl)
+        if k_ != 'return' or not isinstance(quad, dict):
+            return (k_, repr(quad))
+        return tuple((n, quad[n].a.copy() if isinstance(quad.get(n), NumArr) else repr(quad.get(n))) for n in sorted(quad))
+
+    def same(a, b):
+        if len(a) != len(b):
+            return False
+        for x, y in zip(a, b, strict=True):
+            if isinstance(x, tuple) and isinstance(y, tuple) and len(x) == 2 and len(y) == 2:
+                if x[0] != y[0]:
+                    return False
+                if isinstance(x[1], np.ndarray) and isinstance(y[1], np.ndarray):
+                    if x[1].shape != y[1].shape or not np.array_equal(x[1], y[1]):
+                        return False
+                elif isinstance(x[1], np.ndarray) or isinstance(y[1], np.ndarray) or x[1] != y[1]:
+                    return False
+            elif x != y:
+                return False
+        return True
+
+    fresh = {}
+    for cfg in configs:
+        T.reset()
+        wm = FoldModel()
+        wi = WitnessInterp(repo, wm)
+        fresh[cfg] = request(wi, wm, *cfg)
+    problems: dict = {}
+    n = 0
+    for first in configs:
+        for second in configs:
+            T.reset()
+            wm = FoldModel()
+            wi = WitnessInterp(repo, wm)
+            got1 = request(wi, wm, *first)
+            # the caller of the first request may do with its arrays what it likes
+            for item in got1:
+                if isinstance(item, tuple) and len(item) == 2 and isinstance(item[1], np.ndarray):
+                    item[1][...] = -1.0
+            got = request(wi, wm, *second)
+            n += 1
+            if not same(got, fresh[second]):
+                problems.setdefault(sfi.fq, []).append({'history': [f'{sfi.qualname}{first}', f'{sfi.qualname}{second}'],
+                                                         'note': 'the rule of the second request is not the rule a fresh interpreter hands out'})
+    return problems, n
+
+
 def fold_rule(repo, sfi, kind, ratio):
     """Problems of the reference rule of the unit cylinder (radius 1, z in [-1, 1]) selected for `kind`."""
     import numpy as np
@@ -578,7 +636,13 @@ def run(tier: str) -> Run:
                                                          'expected': T.show(box['want'])[:200] if isinstance(box.get('want'), Rat) else None}, key='beam-intersection')
 
     # ---- R6 ---------------------------------------------------------------------------------------
-    r6 = run.rule('R6', 'quadrature / transmission code writes no module-level state and hands out no memoised arrays', 3)
-    history_free(repo, [repo.func(MOD, 'Cylinder.quadrature'), select_fi,
-                        repo.func(bmod, 'compute_transmission_map')], r6)
+    r6 = run.rule('R6', 'quadrature rules do not depend on call history (two-request histories of the rule selection in one interpreter: after any '
+                        'other request the rule is the one a fresh interpreter hands out) and no memoised array is handed out; the transmission code '
+                        'writes no module-level state', 3)
+    qh_problems, qh_n = quadrature_histories(repo, select_fi)
+    qfi = repo.func(MOD, 'Cylinder.quadrature')
+    if select_fi.fq in qh_problems:
+        qh_problems[qfi.fq] = qh_problems[select_fi.fq]
+    eff6 = history_free(repo, [qfi, select_fi], r6, histories=(qh_problems, qh_n))
+    history_free(repo, [repo.func(bmod, 'compute_transmission_map')], r6, eff=eff6, decided_elsewhere=[qfi, select_fi])
     return run
